@@ -25,6 +25,14 @@ fi
 
 go build "${MODARGS[@]}" -o "$WORK/mkoverlay" ./cmd/mkoverlay >"$WORK/build.log" 2>&1 || { cat "$WORK/build.log" >&2; echo "machinery error: mkoverlay did not build" >&2; exit 2; }
 "$WORK/mkoverlay" -repo "$REPO" -out "$WORK/ov" -shim "$VERIF/engine/shim" || { echo "machinery error: overlay generation failed" >&2; exit 2; }
+# add the property's package to the build through the overlay
+PKG="$(echo "$ID" | tr 'A-Z' 'a-z')"
+[ -d "$VERIF/engine/props/$PKG" ] || { echo "machinery error: no checker package props/$PKG" >&2; exit 2; }
+printf 'package main\n\nimport _ "verif/engine/props/%s"\n' "$PKG" > "$WORK/zz_prop.go"
+python3 - "$WORK/ov/overlay.json" "$VERIF/engine/cmd/vcheck/zz_prop.go" "$WORK/zz_prop.go" <<'PY' || exit 2
+import json,sys
+o=json.load(open(sys.argv[1])); o["Replace"][sys.argv[2]]=sys.argv[3]; json.dump(o,open(sys.argv[1],"w"),indent=1)
+PY
 go build "${MODARGS[@]}" -tags verif -overlay "$WORK/ov/overlay.json" -o "$WORK/vcheck" ./cmd/vcheck >"$WORK/build.log" 2>&1 || { cat "$WORK/build.log" >&2; echo "machinery error: checker did not build against $REPO" >&2; exit 2; }
 export VERIF_SITES="$WORK/ov/sites.json"
 "$WORK/vcheck" -prop "$ID" -tier "$TIER" -repo "$REPO" "$@"
